@@ -608,8 +608,10 @@ def phantom(chk, prog, cfg):
         derived = any(e.get("kind") == "Derive" for e in (fn.get("expn") or []))
         if not derived and fn.get("kind") == "Closure":
             derived = any(e.get("kind") == "Derive" for e in (prog.fns.get(fn.get("root"), {}).get("expn") or []))
-        okp = p in ("scale_info::ty::TypeDefTuple::new", "scale_info::ty::TypeDefTuple::new_portable",
-                    "<scale_info::ty::TypeDefTuple as scale_info::registry::IntoPortable>::into_portable") or derived
+        ALLOWED_TT = {"scale_info::ty::TypeDefTuple::new", "scale_info::ty::TypeDefTuple::new_portable",
+                      "<scale_info::ty::TypeDefTuple as scale_info::registry::IntoPortable>::into_portable"}
+        # (a private wrapper of the struct literal that only the allowed constructors call is part of them)
+        okp = p in ALLOWED_TT or derived or who.owner_ok(prog, p.split("::{closure")[0], ALLOWED_TT)
         if not okp and p == "scale_info::ty::TypeDefTuple::unit":
             # the empty tuple built directly: nothing to filter
             tt_ = b.rvalue_term(rv)
@@ -618,6 +620,8 @@ def phantom(chk, prog, cfg):
     b = cr.anchor(chk, prog, "ty::TypeDefTuple::new")
     if b is not None:
         rt = b.return_term()
+        if not is_adt_agg(rt, TT):
+            rt = mir.inline_call(prog, unref(rt))      # the literal may sit in a private helper
         ok = False
         if is_adt_agg(rt, TT):
             from ..lib import loops
